@@ -205,6 +205,7 @@ func commonExtras(s *pgen.Std) []*pgen.Type {
 		// hand-written Compare/Equal behind a top-level pointer (structural there); arrays of slices as map
 		// elements (a reused scratch array would alias them)
 		s.SU, pgen.Ptr(s.SU), pgen.Slice(s.SU), s.XT, pgen.Ptr(s.XT), pgen.Slice(s.XT), pgen.Ptr(s.SCi),
-		pgen.Ptr(s.SCv), pgen.Slice(s.SCv), pgen.Slice(pgen.Ptr(s.SCv)), pgen.Map(pgen.B("string"), s.SCv), pgen.Slice(s.SCi), pgen.Slice(pgen.Ptr(s.SCi)),
+		s.SH, pgen.Ptr(s.SH), pgen.Slice(s.SH), pgen.Array(2, s.SH), pgen.Map(pgen.B("int"), s.SH), pgen.Array(2, s.SCi),
+		pgen.Ptr(s.SCv), pgen.Ptr(pgen.Ptr(s.SCv)), pgen.Ptr(pgen.Ptr(s.SCi)), pgen.Slice(s.SCv), pgen.Slice(pgen.Ptr(s.SCv)), pgen.Map(pgen.B("string"), s.SCv), pgen.Slice(s.SCi), pgen.Slice(pgen.Ptr(s.SCi)),
 		pgen.Map(pgen.B("string"), pgen.Array(2, pgen.Slice(pgen.B("int")))), pgen.Map(pgen.B("float64"), pgen.Ptr(pgen.B("int"))), pgen.Map(pgen.B("complex128"), pgen.B("string"))}
 }
